@@ -21,7 +21,7 @@ def atom_bounds(a):
     k = a[0]
     if k == 'len':
         return (0, LEN_MAX)
-    if k == 'at':
+    if k in ('at', 'byte'):
         return (0, 255)
     if k in ('be', 'le'):
         return (0, 256 ** len(a[1]) - 1)
